@@ -234,6 +234,12 @@ func (st *state) validate(instance reflect.Value, schema *Schema, callerAnns *an
 				}
 			}
 			if dynamicSchema == nil {
+				// No schema resource in the dynamic scope declares the anchor (the
+				// initially resolved target lives in a resource that was not entered):
+				// the initial target stands.
+				dynamicSchema = schemaInfo.dynamicRefFallback
+			}
+			if dynamicSchema == nil {
 				return fmt.Errorf("missing dynamic anchor %q", schemaInfo.dynamicRefAnchor)
 			}
 			if err := st.validate(instance, dynamicSchema, &anns); err != nil {
@@ -672,6 +678,9 @@ func (st *state) resolveDynamicRef(schema *Schema) (*Schema, error) {
 		if ok && info.dynamic {
 			return info.schema, nil
 		}
+	}
+	if info.dynamicRefFallback != nil {
+		return info.dynamicRefFallback, nil
 	}
 	return nil, fmt.Errorf("missing dynamic anchor %q", info.dynamicRefAnchor)
 }
